@@ -300,6 +300,19 @@ theorem trimSpace_fixed (s : Str) (h : ∀ c ∈ s, isSpaceGo c = false) : trimS
   unfold trimSpace trimRight
   rw [h1, h2, List.reverse_reverse]
 
+/-- every profile read from `COMPOSE_PROFILES` is trimmed: no entry starts or ends with a space, wherever the
+    variable came from -/
+theorem envProfiles_trimmed (env : Env) (p : Str) (hp : p ∈ envProfiles env) (c : Char) :
+    (p.head? = some c → isSpaceGo c = false) ∧ (p.getLast? = some c → isSpaceGo c = false) := by
+  unfold envProfiles at hp
+  obtain ⟨q, _, rfl⟩ := List.mem_map.mp hp
+  exact ⟨trimSpace_head_not_space q c, trimSpace_last_not_space q c⟩
+
+/-- … and there is always at least one entry (an unset or empty variable selects the profile `""`) -/
+theorem envProfiles_ne_nil (env : Env) : envProfiles env ≠ [] := by
+  unfold envProfiles splitOn
+  cases ((env.get profilesKey).getD []).length <;> simp [splitOnFuel] <;> split <;> simp
+
 /-- a service without `profiles:` is always enabled; one with `profiles:` iff a selected profile is `*` or listed -/
 theorem hasProfile_iff (svc selected : List Str) :
     hasProfile svc selected = true ↔ svc = [] ∨ ∃ p ∈ selected, p = ['*'] ∨ p ∈ svc := by
